@@ -243,6 +243,8 @@ var refreshQueries = []string{
 	`{ a: user(id: 1) { email age } b: user(id: 2) { boss { email } } }`,
 	// root fields on different services: sibling sub-plans stitch into one result object
 	`{ users { id email age } devices { id temp } admins { id hiding } }`,
+	// fields of one object on two other services: sibling sub-plans stitch into the same objects
+	`{ users { id email age boss { secret email } } }`,
 }
 
 var refreshAssignments = []fedfix.Assignment{
@@ -250,6 +252,9 @@ var refreshAssignments = []fedfix.Assignment{
 		"User.email": "s2", "User.age": "s1", "User.secret": "s2", "User.device": "s1", "User.devices": "s2", "User.boss": "s1", "Device.temp": "s2", "Device.owner": "s1", "Device.tags": "s2", "Admin.hiding": "s1"},
 	{"users": "s1", "user": "s1", "devices": "s1", "everyone": "s1", "admins": "s1", "nobody": "s1", "noUsers": "s1",
 		"User.email": "s2", "User.age": "s2", "User.secret": "s1", "User.device": "s2", "User.devices": "s1", "User.boss": "s2", "Device.temp": "s1", "Device.owner": "s2", "Device.tags": "s1", "Admin.hiding": "s2"},
+	// three services
+	{"users": "s1", "user": "s1", "devices": "s2", "everyone": "s1", "admins": "s3", "nobody": "s1", "noUsers": "s1",
+		"User.email": "s2", "User.age": "s3", "User.secret": "s3", "User.device": "s1", "User.devices": "s1", "User.boss": "s1", "Device.temp": "s3", "Device.owner": "s2", "Device.tags": "s2", "Admin.hiding": "s1"},
 }
 
 // after the change every field that only s1 served is served by s2 as well (a rolling move, first half)
@@ -451,8 +456,9 @@ func servedBy(g *fedfix.Gateway) string {
 
 func refreshConfigs(tier string) []rcfg {
 	var out []rcfg
-	for asg := range refreshAssignments {
-		for q := range refreshQueries {
+	out = append(out, rcfg{Asg: 2, Query: 5, N: 1}, rcfg{Asg: 2, Query: 0, N: 1})
+	for asg := range refreshAssignments[:2] {
+		for q := range refreshQueries[:5] {
 			if tier != "thorough" && (q+asg)%2 == 1 {
 				continue
 			}
